@@ -294,6 +294,9 @@ class BusCookieAuthenticator :
             return ('REJECTED', None)
 
     def _step_one(self, username, keyring_dir=None):
+        if isinstance(username, bytes):
+            username = username.decode('ascii')
+
         try:
             uid = int(username)
             try:
@@ -617,7 +620,7 @@ class BusAuthenticator :
             return
 
         if response:
-            response = binascii.unhexlify(response.strip()).decode('ascii')
+            response = binascii.unhexlify(response.strip())
 
         status, challenge = self.current_mech.step(response)
 
